@@ -1,0 +1,67 @@
+//! Verification hooks (cargo feature `verif`, off by default).
+//!
+//! Read-only re-exports of crate-internal items, so that an external property-testing harness
+//! can compare them against an independent reference model. Nothing here changes behaviour.
+
+#[cfg(feature = "std")]
+use std::vec::Vec;
+
+#[cfg(not(feature = "std"))]
+use alloc::vec::Vec;
+
+pub use crate::base::{deg, intermediate_tuple};
+pub use crate::constraint_matrix::{
+    enc_indices, generate_constraint_matrix, generate_constraint_matrix_no_hdpc,
+};
+pub use crate::matrix::{BinaryMatrix, DenseBinaryMatrix};
+pub use crate::octet::{OCTET_MUL, Octet};
+#[cfg(feature = "std")]
+pub use crate::octet::{OCTET_MUL_HI_BITS, OCTET_MUL_LOW_BITS};
+pub use crate::octet_matrix::DenseOctetMatrix;
+pub use crate::octets::verif_kernels;
+pub use crate::octets::{
+    BinaryOctetVec, add_assign, fused_addassign_mul_scalar, fused_addassign_mul_scalar_binary,
+    mulassign_scalar,
+};
+pub use crate::operation_vector::SymbolOps;
+pub use crate::pi_solver::IntermediateSymbolDecoder;
+pub use crate::rng::rand;
+pub use crate::sparse_matrix::SparseBinaryMatrix;
+pub use crate::symbol::Symbol;
+pub use crate::symbol_slab::SymbolSlab;
+pub use crate::systematic_constants::{
+    MAX_SOURCE_SYMBOLS_PER_BLOCK, SYSTEMATIC_INDICES_AND_PARAMETERS, calculate_p1,
+    extended_source_block_symbols, num_hdpc_symbols, num_intermediate_symbols, num_ldpc_symbols,
+    num_lt_symbols, num_pi_symbols, systematic_index,
+};
+
+#[cfg(feature = "std")]
+pub use crate::encoder::verif_cache;
+
+use crate::ObjectTransmissionInformation;
+
+/// The RFC 6330 section 4.3 parameter derivation with an explicit decoder memory budget.
+pub fn generate_encoding_parameters(
+    transfer_length: u64,
+    max_packet_size: u16,
+    decoder_memory_requirement: u64,
+) -> ObjectTransmissionInformation {
+    ObjectTransmissionInformation::generate_encoding_parameters(
+        transfer_length,
+        max_packet_size,
+        decoder_memory_requirement,
+    )
+}
+
+/// The four random-number tables V0..V3 of section 5.5.
+pub fn v_tables() -> [&'static [u32; 256]; 4] {
+    crate::rng::verif_v_tables()
+}
+
+/// Table 2 of section 5.6 as (K', J, S, H, W) rows, plus P1 for each row.
+pub fn table2_with_p1() -> Vec<(u32, u32, u32, u32, u32, u32)> {
+    SYSTEMATIC_INDICES_AND_PARAMETERS
+        .iter()
+        .map(|&(k, j, s, h, w)| (k, j, s, h, w, calculate_p1(k)))
+        .collect()
+}
